@@ -480,12 +480,12 @@ theorem C04_context_fail_flags_inspected (recurse : Ctx → Nat → M (Ctx × Bo
 
 -- non-vacuity: the rule "1 (marks ignored) 3" on glyphs 5 | 1 mark 2 3 declines AT glyph 2 (index 3); reads = [1, 2, 3] =
 -- current glyph, skipped mark, stop glyph; all three get UNSAFE_TO_CONCAT
-example : (matchInputI exCtx 1 (fun g i => g == [3].getD i 0) [0, 0, 0, 0]).map MatchInI.view
+example : (matchInputI spanCtx 1 (fun g i => g == [3].getD i 0) [0, 0, 0, 0]).map MatchInI.view
     = .ok (false, 4, [.inp 1, .inp 2, .inp 3], .iter) := by rfl
-example : ∃ c', applyContextRule noRecurse exCtx [3] (fun g v => g == v) [] = .ok (c', false) ∧
+example : ∃ c', applyContextRule spanNoRecurse spanCtx [3] (fun g v => g == v) [] = .ok (c', false) ∧
     c'.buf.info.map (·.mask) = [1, 3, 3, 3, 1] ∧
-    exCtx.buf.idx < exCtx.buf.len ∧ exCtx.buf.len ≤ exCtx.buf.info.length ∧
-    exCtx.buf.flags &&& Gen.Buf.produceUnsafeToConcat ≠ 0 :=
+    spanCtx.buf.idx < spanCtx.buf.len ∧ spanCtx.buf.len ≤ spanCtx.buf.info.length ∧
+    spanCtx.buf.flags &&& Gen.Buf.produceUnsafeToConcat ≠ 0 :=
   ⟨_, rfl, rfl, by decide, by decide, by decide⟩
 
 /-- **Ligature::apply, a ligature that declines** (`comps` non-empty): the same statement as for a context rule -/
@@ -535,19 +535,19 @@ theorem C04_ligature_fail_flags_inspected (c c' : Ctx) (comps : List Nat) (lig :
     clusters 0 | 1 | 4 are CONCAT-free segments; the even text `61:0,64:4` gives the single glyph 6 — the redistribution
     sentence of C04 fails (levels 0 and 1). -/
 theorem known_C04_ligcomp_fail_unflagged :
-    (matchInputI (ligCtx (8 + 33 * 65536)) 1 (fun g i => g == [10].getD i 0) [0, 0, 0, 0]).map MatchInI.view
+    (matchInputI (spanLigCtx (8 + 33 * 65536)) 1 (fun g i => g == [10].getD i 0) [0, 0, 0, 0]).map MatchInI.view
       = .ok (false, 0, [.inp 0, .inp 1, .inp 2], .ligComp) ∧
-    (ligatureRule (ligCtx (8 + 33 * 65536)) ([10], 99)).map (fun r => (r.1.buf.info.map (·.mask), r.2))
+    (ligatureRule (spanLigCtx (8 + 33 * 65536)) ([10], 99)).map (fun r => (r.1.buf.info.map (·.mask), r.2))
       = .ok ([1, 1, 1, 1], false) ∧
-    (ligatureRule (ligCtx 8) ([10], 99)).map (fun r => ((r.1.buf.outArr.take r.1.buf.outLen).map (·.gid), r.2))
+    (ligatureRule (spanLigCtx 8) ([10], 99)).map (fun r => ((r.1.buf.outArr.take r.1.buf.outLen).map (·.gid), r.2))
       = .ok ([99, 20], true) ∧
-    (ligCtx (8 + 33 * 65536)).buf.flags &&& Gen.Buf.produceUnsafeToConcat ≠ 0 :=
+    (spanLigCtx (8 + 33 * 65536)).buf.flags &&& Gen.Buf.produceUnsafeToConcat ≠ 0 :=
   ⟨rfl, rfl, rfl, by decide⟩
 
 -- non-vacuity of C04_ligature_fail_flags_inspected, on its ligComp branch
-example : ∃ c', ligatureRule (ligCtx (8 + 33 * 65536)) ([10], 99) = .ok (c', false) ∧
-    (ligCtx (8 + 33 * 65536)).buf.idx < (ligCtx (8 + 33 * 65536)).buf.len ∧
-    (ligCtx (8 + 33 * 65536)).buf.len ≤ (ligCtx (8 + 33 * 65536)).buf.info.length :=
+example : ∃ c', ligatureRule (spanLigCtx (8 + 33 * 65536)) ([10], 99) = .ok (c', false) ∧
+    (spanLigCtx (8 + 33 * 65536)).buf.idx < (spanLigCtx (8 + 33 * 65536)).buf.len ∧
+    (spanLigCtx (8 + 33 * 65536)).buf.len ≤ (spanLigCtx (8 + 33 * 65536)).buf.info.length :=
   ⟨_, rfl, by decide, by decide⟩
 
 /-- **a chain rule that declined flagged what it inspected — except on the ligature-component path** (`apply_chain_context`,
@@ -686,16 +686,16 @@ theorem C04_chain_fail_flags_inspected (recurse : Ctx → Nat → M (Ctx × Bool
 
 -- non-vacuity: backtrack mismatch (9 wanted, 5 found): verdict backFail, span out[0, 1) ++ info[1, 5), reads = input
 -- [1, 2, 3] + lookahead [4] + backtrack out[0] (the glyph that made it fail); the whole buffer gets UNSAFE_TO_CONCAT
-example : (chainMatchI exCtx 1 1 1 (fun g _ => g == 9) (fun g _ => g == 2) (fun g _ => g == 3)).map ChainM.view
+example : (chainMatchI spanCtx 1 1 1 (fun g _ => g == 9) (fun g _ => g == 2) (fun g _ => g == 3)).map ChainM.view
     = .ok (.backFail, 0, 5, [.inp 1, .inp 2, .inp 3, .inp 4, .out 0]) := by rfl
 -- lookahead mismatch: reads = input [1, 2, 3] + the lookahead glyph that made it fail [4]
-example : (chainMatchI exCtx 1 1 1 (fun g _ => g == 5) (fun g _ => g == 2) (fun g _ => g == 9)).map ChainM.view
+example : (chainMatchI spanCtx 1 1 1 (fun g _ => g == 5) (fun g _ => g == 2) (fun g _ => g == 9)).map ChainM.view
     = .ok (.aheadFail, 0, 5, [.inp 1, .inp 2, .inp 3, .inp 4]) := by rfl
-example : ∃ c', applyChainRule noRecurse exCtx 1 1 1 (fun g _ => g == 9) (fun g _ => g == 2) (fun g _ => g == 3) []
+example : ∃ c', applyChainRule spanNoRecurse spanCtx 1 1 1 (fun g _ => g == 9) (fun g _ => g == 2) (fun g _ => g == 3) []
       = .ok (c', false) ∧ c'.buf.info.map (·.mask) = [3, 3, 3, 3, 3] ∧
-    exCtx.buf.idx < exCtx.buf.len ∧ Buf.WF exCtx.buf ∧ exCtx.buf.haveOutput = true ∧
-    exCtx.buf.flags &&& Gen.Buf.produceUnsafeToConcat ≠ 0 :=
-  ⟨_, rfl, rfl, by decide, ⟨by decide, by decide, by simp [exCtx], by decide⟩, rfl, by decide⟩
+    spanCtx.buf.idx < spanCtx.buf.len ∧ Buf.WF spanCtx.buf ∧ spanCtx.buf.haveOutput = true ∧
+    spanCtx.buf.flags &&& Gen.Buf.produceUnsafeToConcat ≠ 0 :=
+  ⟨_, rfl, rfl, by decide, ⟨by decide, by decide, by simp [spanCtx], by decide⟩, rfl, by decide⟩
 
 end RbModel.Flags
 
@@ -770,11 +770,11 @@ theorem C04_reverse_fail_flags_inspected (c c' : Ctx) (back ahead : List Cov) (s
 
 -- non-vacuity: the backtrack wants 9 and finds 5 (after stepping over the mark): reads = current glyph, out[1] (skipped mark),
 -- out[0] (the glyph that made it fail); span [0, 3)
-example : revMatchI revCtx [[9]] [[3]] = .ok (false, 0, 3, [.inp 2, .out 1, .out 0]) := by rfl
-example : ∃ c', (revMatchI revCtx [[9]] [[3]] >>= revFinish revCtx 7) = .ok (c', false) ∧
+example : revMatchI spanRevCtx [[9]] [[3]] = .ok (false, 0, 3, [.inp 2, .out 1, .out 0]) := by rfl
+example : ∃ c', (revMatchI spanRevCtx [[9]] [[3]] >>= revFinish spanRevCtx 7) = .ok (c', false) ∧
     c'.buf.info.map (·.mask) = [3, 3, 3, 1, 1] ∧
-    revCtx.buf.idx < revCtx.buf.len ∧ revCtx.buf.len ≤ revCtx.buf.info.length ∧ revCtx.buf.haveOutput = false ∧
-    revCtx.buf.sepOut = false ∧ revCtx.buf.flags &&& Gen.Buf.produceUnsafeToConcat ≠ 0 :=
+    spanRevCtx.buf.idx < spanRevCtx.buf.len ∧ spanRevCtx.buf.len ≤ spanRevCtx.buf.info.length ∧ spanRevCtx.buf.haveOutput = false ∧
+    spanRevCtx.buf.sepOut = false ∧ spanRevCtx.buf.flags &&& Gen.Buf.produceUnsafeToConcat ≠ 0 :=
   ⟨_, rfl, rfl, by decide, by decide, rfl, rfl, by decide⟩
 
 end RbModel.Flags
